@@ -37,7 +37,7 @@ func genCloseCase(t *rapid.T) CloseCase {
 	c.Steps = genWriteProgram(t, c.W.EffWriteBuf(), WGenOpts{MaxSteps: 8, AllowHuge: false, AllowBad: true, AllowClose: false, AllowCtl: true})
 	c.At = rapid.IntRange(0, len(c.Steps)).Draw(t, "at")
 	c.InPart = -1
-	c.Via = rapid.SampledFrom([]string{"control", "control", "msg", "writer", "prepared", "peerclose", "peerviolation", "peerbig"}).Draw(t, "via")
+	c.Via = rapid.SampledFrom([]string{"control", "control", "msg", "writer", "prepared", "peerclose", "peerclose_custom", "peerviolation", "peerbig"}).Draw(t, "via")
 	c.Code = rapid.SampledFrom([]int{1000, 1001, 1008, 3000, 4999, 0}).Draw(t, "code")
 	// prefer positions inside an open message when there is one
 	var writers []int
@@ -107,7 +107,7 @@ func (c CloseCase) withClose() []WStep {
 
 func (c CloseCase) closePart(d Payload) WPart {
 	switch c.Via {
-	case "peerclose", "peerviolation", "peerbig":
+	case "peerclose", "peerclose_custom", "peerviolation", "peerbig":
 		return WPart{API: c.Via, MT: c.Code}
 	}
 	return WPart{API: "control", MT: websocket.CloseMessage, Data: d}
@@ -121,7 +121,7 @@ func (c CloseCase) closeStep(d Payload) WStep {
 		return WStep{Op: "writer", MT: websocket.CloseMessage, Data: d, Parts: []WPart{{API: "write", Len: d.Len / 2}}}
 	case "prepared":
 		return WStep{Op: "prepared", MT: websocket.CloseMessage, Data: d}
-	case "peerclose", "peerviolation", "peerbig":
+	case "peerclose", "peerclose_custom", "peerviolation", "peerbig":
 		return WStep{Op: c.Via, Level: c.Code}
 	}
 	return WStep{Op: "control", MT: websocket.CloseMessage, Data: d, Deadline: 1}
@@ -173,7 +173,7 @@ func judgeAfterClose(c CloseCase, tw *WTrace, wrote []byte, o *Obs) error {
 		wantCode = 1002
 	case "peerbig":
 		wantCode = 1009
-	case "peerclose":
+	case "peerclose", "peerclose_custom":
 		wantCode = c.Code
 	default:
 		if !bytes.Equal(p, closeBodyFor(c.Code)) {
